@@ -1,8 +1,77 @@
 import PymtlVerif.Driver.Sexp
-/-! Handler `mamba`: stub, filled by its builder. -/
-namespace PV.Driver.Mamba
-open PV
+import PymtlVerif.Model.Mamba
+/-!
+Handler `mamba`: executable face of `Model/Mamba.lean` (correspondence check `harness/checks/c01_mamba.py`).
 
-def handle (_args : List Sexp) : Option String := none
+* `mamba packff ((br blk) ...)` or `((br loop blk) ...)` — `schedule_ff`'s meta blocks (`PV.Mamba.packFF`); with the
+  3-element form the effective branchiness (`0` for loop-only blocks) is computed here. Reply `((blk ...) ...)`.
+* `mamba packscc ((br loop blk) ...)` — `compile_scc`'s grouping of a BFS order (`PV.Mamba.packSCC`).
+* `mamba sched (n) (edges (u v) ...) (br b0 b1 ...) (special i ...)` — `Mamba2020Pass.schedule_intra_cycle` on the
+  condensation graph with vertices `0..n-1` (`edges` in the iteration order of `G_new`), `br` the branchiness of the
+  single block of each trivial SCC, `special` = nontrivial or loop-only SCCs (queue key 0). Reply: the meta blocks of
+  SCC ids `((u ...) ...)` (`PV.Mamba.mambaSched`).
+* `mamba heutopo (n) (edges (u v) ...) (br b0 ...) (ids i0 ...)` — `HeuristicTopoPass.schedule_intra_cycle`
+  (`PV.Mamba.heuSched`); reply `(u ...)`.
+* `mamba insert ((br cnt item) ...) br cnt item` — `insert_sortedlist` alone; reply `((br cnt item) ...)`.
+-/
+namespace PV.Driver.Mamba
+open PV PV.Mamba
+
+def showGroups (gs : List (List Nat)) : String :=
+  "(" ++ " ".intercalate (gs.map natsToString) ++ ")"
+
+def ffEntry? : Sexp → Option (Nat × Nat)
+  | .list [b, k] => do some (← b.nat?, ← k.nat?)
+  | .list [b, l, k] => do some (effBr (← b.nat?, ← l.bool?, ← k.nat?), ← k.nat?)
+  | _ => none
+
+def sccEntry? : Sexp → Option (Nat × Bool × Nat)
+  | .list [b, l, k] => do some (← b.nat?, ← l.bool?, ← k.nat?)
+  | _ => none
+
+def edge? : Sexp → Option (Nat × Nat)
+  | .list [u, v] => do some (← u.nat?, ← v.nat?)
+  | _ => none
+
+def qe? : Sexp → Option QE
+  | .list [b, c, i] => do some ((← b.nat?, ← c.nat?), ← i.nat?)
+  | _ => none
+
+/-- adjacency in the order of the edge list -/
+def graphOf (n : Nat) (es : List (Nat × Nat)) : Nat → List Nat :=
+  let arr : Array (List Nat) := (List.range n).toArray.map (fun u => (es.filter (fun e => e.1 == u)).map Prod.snd)
+  fun u => arr.getD u []
+
+def handle (args : List Sexp) : Option String :=
+  match args with
+  | [.atom "packff", .list xs] => do
+      let l ← xs.mapM ffEntry?
+      some (showGroups (packFF l))
+  | [.atom "packscc", .list xs] => do
+      let l ← xs.mapM sccEntry?
+      some (showGroups (packSCC l))
+  | [.atom "sched", .list [n], .list (.atom "edges" :: es), .list (.atom "br" :: bs), .list (.atom "special" :: sp)] => do
+      let n ← n.nat?
+      let es ← es.mapM edge?
+      let bs ← bs.mapM Sexp.nat?
+      let sp ← sp.mapM Sexp.nat?
+      if bs.length != n then none
+      else if es.any (fun e => e.1 ≥ n || e.2 ≥ n) || sp.any (· ≥ n) then none
+      else
+        let kb := fun v => if sp.contains v then 0 else bs.getD v 0
+        some (showGroups (mambaSched (graphOf n es) kb n))
+  | [.atom "heutopo", .list [n], .list (.atom "edges" :: es), .list (.atom "br" :: bs), .list (.atom "ids" :: ids)] => do
+      let n ← n.nat?
+      let es ← es.mapM edge?
+      let bs ← bs.mapM Sexp.nat?
+      let ids ← ids.mapM Sexp.nat?
+      if bs.length != n || ids.length != n then none
+      else if es.any (fun e => e.1 ≥ n || e.2 ≥ n) then none
+      else some (natsToString (heuSched (graphOf n es) (fun v => bs.getD v 0) (fun v => ids.getD v 0) n))
+  | [.atom "insert", .list xs, b, c, i] => do
+      let arr ← xs.mapM qe?
+      let r := insertSorted arr (← b.nat?, ← c.nat?) (← i.nat?)
+      some ("(" ++ " ".intercalate (r.map (fun e => s!"({e.1.1} {e.1.2} {e.2})")) ++ ")")
+  | _ => none
 
 end PV.Driver.Mamba
